@@ -28,7 +28,7 @@ LAYOUTS = {
 
 def configs(tier):
     out = []
-    depths = [1, 2, 3, 4, 5, 6] if tier == "quick" else [1, 2, 3, 4, 5, 6, 7, 8, 9, 10, 11, 12, 16]
+    depths = [1, 2, 3, 4, 5, 6] if tier == "quick" else [1, 2, 3, 4, 5, 6, 7, 8, 9, 10, 11, 12, 16, 33, 65]
     for kind in ("basic", "fifo"):
         for d in depths:
             lays = ["d2"] if (tier == "quick" and d not in (2, 3)) else ["d1", "d2", "a1b2"]
